@@ -4,9 +4,9 @@ package main
 
 import (
 	"fmt"
-	"strings"
 	"go/token"
 	"sort"
+	"strings"
 
 	"golang.org/x/tools/go/ssa"
 )
@@ -59,6 +59,16 @@ func c15Scope(c *Ctx) []*ssa.Function {
 }
 
 func checkC15(c *Ctx) {
+	c.Decided = append(c.Decided,
+		"G-C15-msgtype / G-C15-readerr: after every readHandshake, no successful return is reachable unless the message passed a comma-ok assertion to an expected type, and a failed read is returned",
+		"G-C15-err: in the handshake functions and every method of the four handshake state types, no path on which a step's error is non-nil reaches a successful return (errors are tracked through joins); dropped errors only for alerts, never-failing callees, the sticky-read idiom and fully unused calls",
+		"G-C15-complete: handshakeStatus is set on every successful return of the handshake functions and nothing can fail afterwards (so Conn.Handshake's consistency panic is dead)",
+		"B-PANIC: every explicit panic and single-value type assertion in the VTA closure of Handshake/readRecord/readHandshake is unreachable by a named rule (K-C15-suites, K-C15-version, K-C15-finhash, call-site preconditions) or exempted by name with the invariant",
+		"K-C15-suites: key, IV and MAC lengths of every cipher-suite row fit its constructors; cipher constructors return CBC modes or RC4 only",
+		"K-C15-version: mutualVersion accepts only implemented versions and Conn.vers is only ever assigned such a version",
+		"K-C15-finhash: every finishedHash that can be used below TLS 1.2 (GMSSL included) has its MD5 pair",
+		"B-IDX: index/slice sites of the key-exchange message parsers and readHandshake (handshake message unmarshalers are under C18)")
+	c.NotDec = append(c.NotDec, "liveness against a silent peer (depends on the transport's deadlines)", "bounds inside the record layer's block buffers (conn.go block/halfConn arithmetic)", "the order of handshake messages beyond the per-step type checks (follows from the straight-line flights)")
 	getFX(c)
 	scope := c15Scope(c)
 	c.Notes = append(c.Notes, fmt.Sprintf("handshake closure: %d functions", len(scope)))
@@ -71,11 +81,36 @@ func checkC15(c *Ctx) {
 		}
 	}
 	dbg("C15 scope by package: %v", byPkg)
-	st := bidx(c, "B-IDX", scope, map[string]string{})
+	// bounds: the parsers of peer messages that C18's decoder closure does not already cover
+	var parsers []*ssa.Function
+	for _, n := range []string{"(*eccKeyAgreementGM).processClientKeyExchange", "(*eccKeyAgreementGM).processServerKeyExchange", "(*ecdheKeyAgreementGM).processServerKeyExchange",
+		"rsaKeyAgreement.processClientKeyExchange", "(*ecdheKeyAgreement).processClientKeyExchange", "(*ecdheKeyAgreement).processServerKeyExchange", "(*Conn).readHandshake"} {
+		if f := c.Fn("gmtls", n); f != nil {
+			parsers = append(parsers, f)
+		} else {
+			c.Missing("B-IDX", "gmtls."+n, "peer message parser", "not found")
+		}
+	}
+	lbOvfMode = true
+	st := bidx(c, "B-IDX", parsers, map[string]string{
+		"B-IDX|(*gmtls.ecdheKeyAgreement).processClientKeyExchange|slice ?*ssa.MakeSlice[-1*len(call:(*math/big.Int).Bytes(extract0(call:invoke crypto/elliptic.Curve.ScalarMult(*": "x is a coordinate returned by Curve.ScalarMult, a field element below p, so len(x.Bytes()) <= (BitSize+7)/8 (a fact about curve arithmetic, not about the input)",
+		"B-IDX|(*gmtls.Conn).readHandshake|index call:(*bytes.Buffer).Next(field:hand(c),add(0x4,*":                                                                                 "the preceding loop reads records until c.hand.Len() >= 4+n, and bytes.Buffer.Next(4+n) then returns exactly that many bytes (the prover does not model the buffer's length)",
+	})
+	lbOvfMode = false
 	c.Notes = append(c.Notes, fmt.Sprintf("B-IDX: %d sites, %d compiler, %d LinBounds, %d unproven", st.sites, st.compiler, st.lin, st.unproved))
-	c18Panics(c, scope)
 	c15MsgType(c, scope)
+	before := len(c.Obls)
 	c15Complete(c, scope)
+	completeOK := true
+	for _, o := range c.Obls[before:] {
+		if o.Rule == "G-C15-complete" && o.Verdict != "holds" {
+			completeOK = false
+		}
+	}
+	suitesOK := c15Suites(c)
+	versionOK := c15Version(c, scope)
+	c15FinishedHash(c)
+	c15Panics(c, scope, completeOK, suitesOK, versionOK)
 	_ = token.NoPos
 }
 
@@ -216,7 +251,6 @@ func c15MsgType(c *Ctx, scope []*ssa.Function) {
 		c.Undecided("G-C15-msgtype", "handshake closure", "readHandshake call sites", fmt.Sprintf("only %d found (expected at least 25)", n), token.NoPos)
 	}
 }
-
 
 // isStatusStore: atomic.StoreUint32(&c.handshakeStatus, 1)
 func isStatusStore(in ssa.Instruction) bool {
